@@ -25,8 +25,9 @@ Lemma tick_state cs w :
   (s_close s' = s_close s) /\ (s_events s' = s_events s).
 Proof. cbn. repeat split; reflexivity. Qed.
 
-Lemma reconf_keeps c x : c_fee (reconf c x) = c_fee c /\ c_liq (reconf c x) = c_liq c /\ c_lend (reconf c x) = c_lend c
-                         /\ c_default_pair (reconf c x) = c_default_pair c.
+Lemma reconf_keeps c x : c_fee (reconf c x) = c_fee c /\ c_liq (reconf c x) = c_liq c /\
+                         c_default_pair (reconf c x) = c_default_pair c /\
+                         (match x with XLend _ => True | _ => c_lend (reconf c x) = c_lend c end).
 Proof. destruct x; cbn; auto. Qed.
 
 (* a history without setters is a history of the plain model *)
@@ -45,13 +46,14 @@ Lemma xstep_invariants K cs x :
   let cs' := fst (xstep cs x) in cfg_ok (fst cs') /\ WF (snd cs') /\ all_inv K (snd cs') /\ frozen (snd cs) (snd cs').
 Proof.
   destruct cs as [c s]. cbn [fst snd]. intros Hc Hx Hw Hi.
-  destruct x as [o|y p|pr bq|w]; cbn [xstep fst snd].
+  destruct x as [o|y p|pr bq|l|w]; cbn [xstep fst snd].
   - destruct (step c s o) as [s' rep] eqn:E. cbn [fst snd].
     assert (Es : s' = run c s [o]) by (unfold run; cbn [fold_left]; rewrite E; reflexivity).
     assert (Ho : ops_ok [o]) by (constructor; [exact Hx | constructor]).
     destruct (run_invariants c K [o] s Hc Ho Hw Hi) as [W I].
     destruct (run_prims c [o] s Hc Ho Hw) as (_ & _ & F).
     rewrite <- Es in W, I, F. split; [|split; [|split]]; assumption.
+  - split; [|split; [|split]]; try assumption. intros i o Hn _; exact Hn.
   - split; [|split; [|split]]; try assumption. intros i o Hn _; exact Hn.
   - split; [|split; [|split]]; try assumption. intros i o Hn _; exact Hn.
   - split; [exact Hc|]. split; [exact Hw|]. split; [exact Hi|]. intros i o Hn _; exact Hn.
